@@ -25,6 +25,9 @@ pub struct Case {
     /// location and distance are those of the union)
     #[serde(default)]
     pub mixed: bool,
+    /// sub-case: a thin triangle in doubles (a, b, and a point next to the segment a-b); `g` is then ignored
+    #[serde(default)]
+    pub sliver: Option<[(f64, f64); 3]>,
     #[serde(skip)]
     pub trusted: bool,
 }
@@ -80,7 +83,7 @@ impl Property for C12 {
     type Case = Case;
     const ID: &'static str = "C12";
     fn strategy(_tier: Tier) -> BoxedStrategy<Case> {
-        (scene_strategy(3), proptest::collection::vec((0u8..=255, 0u8..=255, any::<bool>()), 1..8), xf_strategy(), prop_oneof![1 => Just(0u64), 1 => any::<u64>()])
+        let lattice = (scene_strategy(3), proptest::collection::vec((0u8..=255, 0u8..=255, any::<bool>()), 1..8), xf_strategy(), prop_oneof![1 => Just(0u64), 1 => any::<u64>()])
             .prop_map(|(Scene { a, partners }, qs, xf, noise)| {
                 // query points: lattice points of the grown bbox, and features of the partner geometries (coincidence bias)
                 let bb = a.bbox().unwrap_or(((0, 0), (4, 4)));
@@ -131,11 +134,20 @@ impl Property for C12 {
                             }
                         }
                     }
-                    return Case { g: G::Coll(members), queries, xf, noise: 0, mixed: true, trusted: true };
+                    return Case { g: G::Coll(members), queries, xf, noise: 0, mixed: true, sliver: None, trusted: true };
                 }
-                Case { g: a, queries, xf, noise, mixed: false, trusted: true }
+                Case { g: a, queries, xf, noise, mixed: false, sliver: None, trusted: true }
             })
-            .boxed()
+            .boxed();
+        // thin triangles in doubles: the third vertex lies 1 .. 2^24 ulp off the segment of the other two
+        let nudge = |x: f64, n: i64| if n == 0 { x } else if x == 0.0 { n as f64 * 2f64.powi(-40) } else { f64::from_bits((x.to_bits() as i64 + n) as u64) };
+        let step = || prop_oneof![1 => Just(0i64), 2 => -3i64..=3, 5 => (2u32..=24, any::<bool>()).prop_map(|(k, neg)| if neg { -(1i64 << k) } else { 1i64 << k })];
+        let coord = || prop_oneof![2 => -1.0e6f64..1.0e6, 2 => -8.0f64..8.0, 1 => (-64i32..=64).prop_map(|k| k as f64 / 8.0)];
+        let sliver = ((coord(), coord()), (coord(), coord()), 0.05f64..0.95, step(), step()).prop_map(move |(a, b, t, nx, ny)| {
+            let m = (a.0 + t * (b.0 - a.0), a.1 + t * (b.1 - a.1));
+            Case { g: G::MultiPoint(vec![]), queries: vec![], xf: Xf::ID, noise: 0, mixed: false, sliver: Some([a, b, (nudge(m.0, nx), nudge(m.1, ny))]), trusted: true }
+        });
+        prop_oneof![15 => lattice, 1 => sliver.boxed()].boxed()
     }
     fn quota(tier: Tier) -> u64 {
         tier.pick(2_000_000, 40_000_000)
@@ -150,6 +162,8 @@ impl Property for C12 {
          geometries; no panic. One case in five is the geometry and its partners as one collection of mixed dimension, a third of \
          those with a member of linear / areal TYPE without extent or area (collapsed Rect, collinear or one-point Triangle, \
          zero-length Line) on or away from the other members, with query points on it, beside it and on its supporting line. \
+         Sub-case (1 in 16): interior_point of a thin triangle in doubles (third vertex 1..2^24 ulp off the opposite side), as \
+         Triangle / Polygon / enum, located by exact orientation signs: strictly inside. \
          Non-trivial = the geometry is a polygon with a hole or concave, or the query is on the boundary."
             .into()
     }
@@ -157,12 +171,16 @@ impl Property for C12 {
         vec!["for line work and points interior_point only has to lie on the geometry (the documentation returns a vertex or an end point)".into()]
     }
     fn must_hit() -> Vec<&'static str> {
-        vec!["query:inside", "query:on-boundary", "query:outside", "has-hole", "hole-tangent", "concave", "mixed-dimension-collection"]
+        vec!["query:inside", "query:on-boundary", "query:outside", "has-hole", "hole-tangent", "concave", "mixed-dimension-collection", "sliver:width<=2^16ulp", "sliver:wider"]
     }
     fn show(c: &Case) -> Value {
         json!({"g": wkt(&c.g), "queries": c.queries, "xf": c.xf})
     }
     fn check(c: &Case, obs: &mut Obs) {
+        if let Some(t) = &c.sliver {
+            check_sliver(t, obs);
+            return;
+        }
         let member_ok = |g: &G| match g { G::Coll(v) if c.mixed => v.iter().all(|m| matches!(m, G::Rect(..) | G::Triangle(..)) || in_relate_domain(m)), g => in_relate_domain(g) };
         if !c.trusted && !member_ok(&c.g) {
             obs.label("skipped:out-of-domain");
@@ -330,6 +348,67 @@ impl Property for C12 {
                     }
                 }
             }
+        }
+    }
+}
+
+
+/// interior_point of a thin but non-degenerate triangle in doubles (as Triangle, as Polygon, through the enum): decided by exact
+/// orientation signs of the returned point against the three edges.
+fn check_sliver(t: &[(f64, f64); 3], obs: &mut Obs) {
+    use crate::exact::big::{orient_f64, Dy};
+    use geo::{Coord, Geometry, LineString, Polygon, Triangle};
+    obs.label("sub:sliver");
+    let fin = |v: f64| v.is_finite() && v.abs() <= 1e30 && (v == 0.0 || v.abs() >= 1e-30);
+    if !t.iter().all(|p| fin(p.0) && fin(p.1)) {
+        obs.label("skipped:out-of-domain");
+        return;
+    }
+    let (a, b, c) = (t[0], t[1], t[2]);
+    let o = orient_f64(a, b, c);
+    if o == 0 {
+        obs.label("sliver:degenerate");
+        return;
+    }
+    obs.nontrivial();
+    // width of the triangle (its least altitude) in ulp of the largest coordinate, from the exact determinant
+    let det = {
+        let d = |v: f64| Dy::from_f64(v);
+        d(b.0).sub(&d(a.0)).mul(&d(c.1).sub(&d(a.1))).sub(&d(b.1).sub(&d(a.1)).mul(&d(c.0).sub(&d(a.0)))).to_f64().abs()
+    };
+    let longest = [(a, b), (b, c), (c, a)].iter().map(|(p, q)| (q.0 - p.0).hypot(q.1 - p.1)).fold(0.0, f64::max);
+    let maxabs = t.iter().fold(0.0f64, |m, p| m.max(p.0.abs()).max(p.1.abs()));
+    let width_ulps = det / longest / (maxabs * f64::EPSILON);
+    // input class for the known-findings matcher
+    let cls = if width_ulps <= 16.0 { "|width<=16ulp" } else { "" };
+    obs.label(if width_ulps <= 16.0 { "sliver:width<=16ulp" } else if width_ulps <= 65536.0 { "sliver:width<=2^16ulp" } else { "sliver:wider" });
+    let co = |p: (f64, f64)| Coord { x: p.0, y: p.1 };
+    let tri = Triangle(co(a), co(b), co(c));
+    let poly = Polygon::new(LineString::from(vec![co(a), co(b), co(c), co(a)]), vec![]);
+    let ctx = || format!("triangle {:?} {:?} {:?}, {width_ulps:.3} ulp wide", a, b, c);
+    let runs: Vec<(&str, Result<Option<geo::Point<f64>>, crate::engine::PanicInfo>)> = vec![
+        ("interior_point:Triangle", guard(std::panic::AssertUnwindSafe(|| Some(tri.interior_point())))),
+        ("interior_point:Polygon", guard(std::panic::AssertUnwindSafe(|| poly.interior_point()))),
+        ("interior_point:Geometry[Polygon]", guard(std::panic::AssertUnwindSafe(|| Geometry::Polygon(poly.clone()).interior_point()))),
+    ];
+    for (name, r) in runs {
+        match r {
+            Ok(Some(p)) => {
+                obs.cmp();
+                let q = (p.x(), p.y());
+                if !(q.0.is_finite() && q.1.is_finite()) {
+                    obs.fail(format!("{name}|sliver|not-finite{cls}"), format!("got {:?}; {}", q, ctx()));
+                    continue;
+                }
+                let s = [orient_f64(a, b, q), orient_f64(b, c, q), orient_f64(c, a, q)];
+                if s.iter().any(|x| *x == -o) {
+                    obs.fail(format!("{name}|sliver|outside{cls}"), format!("got {:?}; {}", q, ctx()));
+                } else if s.iter().any(|x| *x == 0) {
+                    obs.fail(format!("{name}|sliver|on-the-boundary{cls}"), format!("got {:?}; {}", q, ctx()));
+                }
+            }
+            Ok(None) => obs.fail(format!("{name}|sliver|none-for-nonempty{cls}"), ctx()),
+            Err(pn) => obs.fail(format!("{name}|sliver|panic|{}{cls}", pn.site()), format!("{} {}", pn, ctx())),
         }
     }
 }
